@@ -536,4 +536,270 @@ theorem step_abs_close (auth : Auth) (b : B) (c : Conn)
       rw [hname]
       rfl
 
+/-! ### histories -/
+
+/-- **every request of every connection refines `Spec.stepStore`** (the connection names being
+distinct): the abstraction of the model's next state is the specification's next state -/
+theorem step_abs (auth : Auth) (b : B) (name : String) (r : Req) (hnd : (b.conns.map (·.name)).Nodup) :
+    absStore (step auth b name r).1 = Spec.stepStore auth (absStore b) name r := by
+  cases hc : b.conn? name with
+  | none =>
+      rw [step_none auth b name r hc]
+      have : (absStore b).client? name = none := by rw [client?_abs, hc]; rfl
+      simp only [Spec.stepStore, this]
+  | some c =>
+    have hname := conn?_name hc
+    subst hname
+    cases ha : c.alive with
+    | false =>
+        rw [dead_silent auth b c.name c r hc ha]
+        have ho : (absInfo c).open_ = false := ha
+        simp only [Spec.stepStore, client?_of_conn hc, ho, Bool.not_false, if_true]
+    | true =>
+        cases r with
+        | connect un wf wr wt wm => exact step_abs_connect auth b c un wf wr wt wm hc ha
+        | subscribe mid topic qos => exact step_abs_subscribe auth b c mid topic qos hnd hc ha
+        | unsubscribe mid topic => exact step_abs_unsubscribe auth b c mid topic hnd hc ha
+        | publish qos retain mid topic payload => exact step_abs_publish auth b c qos retain mid topic payload hc ha
+        | link mid nm key channel sub => exact step_abs_link auth b c mid nm key channel sub hnd hc ha
+        | presence mid key channel status changes =>
+            exact step_abs_presence auth b c mid key channel status changes hnd hc ha
+        | close => exact step_abs_close auth b c hnd hc ha
+
+theorem applyEv_abs (auth : Auth) (b : B) (e : Spec.Ev) (hnd : (b.conns.map (·.name)).Nodup) :
+    absStore (applyEv auth b e).1 = Spec.applyStore auth (absStore b) e := by
+  cases e with
+  | accept n g => simp [applyEv, accept, Spec.applyStore, absStore, absClient, absInfo]
+  | req n r => exact step_abs auth b n r hnd
+  | ban keys => rfl
+
+theorem Spec.runStore_cons (auth : Auth) (S : Spec.StoreState) (e : Spec.Ev) (es : List Spec.Ev) :
+    Spec.runStore auth S (e :: es) = Spec.runStore auth (Spec.applyStore auth S e) es := rfl
+
+theorem Spec.runStore_append (auth : Auth) (S : Spec.StoreState) (h₁ h₂ : List Spec.Ev) :
+    Spec.runStore auth S (h₁ ++ h₂) = Spec.runStore auth (Spec.runStore auth S h₁) h₂ := by
+  unfold Spec.runStore; rw [List.foldl_append]
+
+/-- `Sync` and the freshness of the remaining accepts are kept by one event -/
+theorem applyEv_keeps (auth : Auth) (b : B) (e : Spec.Ev) (es : List Spec.Ev) (hs : Sync b) (hf : Fresh b (e :: es)) :
+    Sync (applyEv auth b e).1 ∧ Fresh (applyEv auth b e).1 es := by
+  obtain ⟨f1, f2, f3, f4⟩ := hf
+  cases e with
+  | accept n g =>
+      simp only [Spec.acceptNames, Spec.acceptKeys, List.nodup_cons, List.mem_cons, not_or] at f1 f2 f3 f4
+      have hn : ∀ c ∈ b.conns, c.name ≠ n := fun c hc => (f3 c hc).1
+      have hk : ∀ c ∈ b.conns, c.key ≠ Hash.hashOf g := fun c hc => (f4 c hc).1
+      have hmem : ∀ x, x ∈ (accept b n g).conns ↔ x ∈ b.conns ∨ x = { name := n, guid := g } := by
+        intro x; simp [accept]
+      refine ⟨sync_accept b n g hs hn hk, f1.2, f2.2, ?_, ?_⟩
+      · intro c hc
+        rcases (hmem c).1 hc with hc | rfl
+        · exact (f3 c hc).2
+        · exact f1.1
+      · intro c hc
+        rcases (hmem c).1 hc with hc | rfl
+        · exact (f4 c hc).2
+        · exact f2.1
+  | req n r =>
+      obtain ⟨_, _, hfr⟩ := step_frame auth b n r hs
+      refine ⟨sync_step auth b n r hs, f1, f2, ?_, ?_⟩
+      · intro x hx
+        obtain ⟨y, hy, h1, _⟩ := hfr x hx
+        rw [← h1]; exact f3 y hy
+      · intro x hx
+        obtain ⟨y, hy, _, h2⟩ := hfr x hx
+        rw [← h2]; exact f4 y hy
+  | ban keys => exact ⟨hs.congr rfl rfl, f1, f2, f3, f4⟩
+
+/-- the refinement along any history with new accepts, from any state satisfying the invariant -/
+theorem run_store (auth : Auth) : ∀ (evs : List Spec.Ev) (b : B), Sync b → Fresh b evs →
+    absStore (run auth b evs) = Spec.runStore auth (absStore b) evs
+  | [], _, _, _ => rfl
+  | e :: es, b, hs, hf => by
+      obtain ⟨hs', hf'⟩ := applyEv_keeps auth b e es hs hf
+      rw [run_cons, Spec.runStore_cons, run_store auth es _ hs' hf', applyEv_abs auth b e hs.names]
+
+/-- the specification state a pristine broker starts from: nobody connected; the ban list, the
+configured retention and the messages already in the store are the broker's -/
+def Spec.initStore (b₀ : B) : Spec.StoreState :=
+  { banned := b₀.banned, retention := b₀.retain, clients := [], log := absLog b₀.store }
+
+theorem absStore_pristine {b : B} (h : Pristine b) : absStore b = Spec.initStore b := by
+  unfold absStore Spec.initStore; rw [h.1]; rfl
+
+/-- **C07, "is stored" and "nothing else is stored", for every history**: after any well-formed
+history from a pristine broker, under every authorizer, the abstraction of the model's state is
+the specification's state after the same history — in particular the model's store, read as a
+log by `absLog`, holds exactly the records `Spec.stepStore` appended, in the same order (⊇: every
+message the property says is stored is there; ⊆: nothing else is) -/
+theorem store_history_refines (auth : Auth) (b₀ : B) (h0 : Pristine b₀) (evs : List Spec.Ev)
+    (hwf : Spec.wellFormed evs = true) :
+    absStore (run auth b₀ evs) = Spec.runStore auth (Spec.initStore b₀) evs := by
+  rw [← absStore_pristine h0]
+  exact run_store auth evs b₀ (sync_pristine h0) (fresh_of_wellFormed h0 hwf)
+
+/-! ### every stored message is filed under a contract -/
+
+theorem keep_store_cases (b : B) (g : Grant) (ch : Channel) (retain : Bool) (payload : Bytes) :
+    (keep b g ch retain payload).store = b.store ∨
+      ∃ m, m.ssid ≠ [] ∧ (keep b g ch retain payload).store = b.store ++ [m] := by
+  unfold keep
+  split
+  · right
+    exact ⟨_, by simp, rfl⟩
+  · exact Or.inl rfl
+
+theorem lastWill_store_cases (auth : Auth) (b : B) (c : Conn) :
+    (lastWill auth b c).1.store = b.store ∨ ∃ m, m.ssid ≠ [] ∧ (lastWill auth b c).1.store = b.store ++ [m] := by
+  by_cases hex : ∃ g, c.hasConnect = true ∧ c.willFlag = true ∧ (parseChannel c.willTopic).ctype = chStatic ∧
+        auth b.banned (parseChannel c.willTopic) permWrite = some g ∧ g.has permExtend = false
+  · obtain ⟨g, h1, h2, h3, h4, h5⟩ := hex
+    rw [lastWill_keep auth b c g h1 h2 h3 h4 h5]
+    exact keep_store_cases b g _ _ _
+  · rw [lastWill_bad auth b c hex]; exact Or.inl rfl
+
+theorem closeF_store (name : String) : ∀ (cs : List Counter) (acc : B × Out),
+    (cs.foldl (closeF name) acc).1.store = acc.1.store
+  | [], _ => rfl
+  | ctr :: rest, acc => by
+      rw [List.foldl_cons, closeF_store name rest (closeF name acc ctr)]
+      unfold closeF
+      cases hcur : acc.1.conn? name with
+      | none => rfl
+      | some cur => exact (unsubscribeConn_frame _ _ _ _).1
+
+/-- a request leaves the store alone or appends one message filed under a contract -/
+theorem step_store_cases (auth : Auth) (b : B) (name : String) (r : Req) :
+    (step auth b name r).1.store = b.store ∨
+      ∃ m, m.ssid ≠ [] ∧ (step auth b name r).1.store = b.store ++ [m] := by
+  cases hc : b.conn? name with
+  | none => rw [step_none auth b name r hc]; exact Or.inl rfl
+  | some c =>
+    have hname := conn?_name hc
+    subst hname
+    cases ha : c.alive with
+    | false => rw [dead_silent auth b c.name c r hc ha]; exact Or.inl rfl
+    | true =>
+        cases r with
+        | connect un wf wr wt wm =>
+            left
+            simp only [step, hc]; rw [if_neg (by simp [ha])]
+            rfl
+        | subscribe mid topic qos =>
+            left
+            cases hg : Spec.granted auth b.banned (parseChannel (fixTopic topic)) permRead with
+            | none =>
+                obtain ⟨st, hst⟩ := reject_subscribe auth b c.name c mid topic qos hc ha (Spec.granted_none hg)
+                rw [hst]
+            | some σ =>
+                obtain ⟨hv, g, hauth, hx, rfl⟩ := Spec.granted_some hg
+                rw [step_subscribe_eq auth b c.name c mid topic qos g hc ha hv hauth hx]
+                exact (subscribeConn_frame _ _ _ _).1
+        | unsubscribe mid topic =>
+            left
+            cases hg : Spec.granted auth b.banned (parseChannel topic) permRead with
+            | none =>
+                obtain ⟨st, hst⟩ := reject_unsubscribe auth b c.name c mid topic hc ha (Spec.granted_none hg)
+                rw [hst]
+            | some σ =>
+                obtain ⟨hv, g, hauth, hx, rfl⟩ := Spec.granted_some hg
+                rw [step_unsubscribe_eq auth b c.name c mid topic g hc ha hv hauth hx]
+                exact (unsubscribeConn_frame _ _ _ _).1
+        | publish qos retain mid topic payload =>
+            by_cases hbad : (parseChannel (resolve c topic)).ctype ≠ chStatic ∨
+                auth b.banned (parseChannel (resolve c topic)) permWrite = none ∨
+                ∃ g, auth b.banned (parseChannel (resolve c topic)) permWrite = some g ∧ g.has permExtend = true
+            · obtain ⟨st, hst⟩ := reject_publish auth b c.name c qos retain mid topic payload hc ha hbad
+              rw [hst]; exact Or.inl rfl
+            · simp only [not_or, Decidable.not_not, not_exists, not_and] at hbad
+              obtain ⟨hst, hne, hnx⟩ := hbad
+              cases hauth : auth b.banned (parseChannel (resolve c topic)) permWrite with
+              | none => exact absurd hauth hne
+              | some g =>
+                  have hx : g.has permExtend = false := by
+                    cases h : g.has permExtend with
+                    | false => rfl
+                    | true => exact absurd h (hnx g hauth)
+                  rw [step_publish_keep auth b c.name c qos retain mid topic payload g hc ha hst hauth hx]
+                  exact keep_store_cases b g _ _ _
+        | link mid nm key channel sub =>
+            left
+            simp only [step, hc]; rw [if_neg (by simp [ha])]
+            split
+            · rfl
+            split
+            · rfl
+            split
+            · split
+              · exact (subscribeConn_frame _ _ _ _).1
+              · rfl
+            · rfl
+        | presence mid key channel status changes =>
+            left
+            simp only [step, hc]; rw [if_neg (by simp [ha])]
+            generalize (if channel.getLast? == some sep then channel else channel ++ [sep]) = chn
+            split
+            · rfl
+            split
+            · rfl
+            split
+            · rfl
+            split <;> (dsimp only [Option.getD_some]; split)
+            · exact (subscribeConn_frame _ _ _ _).1
+            · exact (unsubscribeConn_frame _ _ _ _).1
+            · rfl
+            · exact (subscribeConn_frame _ _ _ _).1
+            · exact (unsubscribeConn_frame _ _ _ _).1
+            · rfl
+        | close =>
+            rw [step_close_eq auth b c.name c hc ha, closeConn_eq]
+            have hF := closeF_store c.name c.counters ({ b with open_ := b.open_ - 1 }, [])
+            generalize (c.counters.foldl (closeF c.name) ({ b with open_ := b.open_ - 1 }, [])) = F at hF ⊢
+            have hF' : F.1.store = b.store := hF
+            show (lastWill auth F.1 _).1.store = b.store ∨ ∃ m, m.ssid ≠ [] ∧ (lastWill auth F.1 _).1.store = b.store ++ [m]
+            rw [← hF']
+            exact lastWill_store_cases auth F.1 _
+
+theorem storeWF_append {s : List Stored} {m : Stored} (h : StoreWF s) (hm : m.ssid ≠ []) : StoreWF (s ++ [m]) := by
+  intro x hx
+  rcases List.mem_append.1 hx with hx | hx
+  · exact h x hx
+  · simp only [List.mem_singleton] at hx; subst hx; exact hm
+
+theorem applyEv_storeWF (auth : Auth) (b : B) (e : Spec.Ev) (h : StoreWF b.store) :
+    StoreWF (applyEv auth b e).1.store := by
+  cases e with
+  | accept n g => exact h
+  | ban keys => exact h
+  | req n r =>
+      rcases step_store_cases auth b n r with h1 | ⟨m, hm, h1⟩
+      · show StoreWF (step auth b n r).1.store
+        rw [h1]; exact h
+      · show StoreWF (step auth b n r).1.store
+        rw [h1]; exact storeWF_append h hm
+
+theorem run_storeWF (auth : Auth) : ∀ (evs : List Spec.Ev) (b : B), StoreWF b.store → StoreWF (run auth b evs).store
+  | [], _, h => h
+  | e :: es, b, h => by
+      rw [run_cons]
+      exact run_storeWF auth es _ (applyEv_storeWF auth b e h)
+
+/-- `store_history_refines` read on the store alone: the model's store after the history is,
+message by message and in the same order, the log after the same history — every record filed as
+`contract :: channel levels` — and the records are numbered in order of arrival -/
+theorem store_history_exact (auth : Auth) (b₀ : B) (h0 : Pristine b₀) (hst : StoreWF b₀.store)
+    (evs : List Spec.Ev) (hwf : Spec.wellFormed evs = true) :
+    let L := (Spec.runStore auth (Spec.initStore b₀) evs).log
+    L = absLog (run auth b₀ evs).store ∧
+    (run auth b₀ evs).store = L.map Spec.Rec.toStored ∧
+    L.map (·.seq) = List.range L.length := by
+  intro L
+  have h : L = absLog (run auth b₀ evs).store := by
+    show (Spec.runStore auth (Spec.initStore b₀) evs).log = _
+    rw [← store_history_refines auth b₀ h0 evs hwf]; rfl
+  refine ⟨h, ?_, ?_⟩
+  · rw [h]
+    exact (toStored_absFrom 0 _ (run_storeWF auth evs b₀ hst)).symm
+  · rw [h, absLog_seq, absLog_length]
+
 end Emitter.Broker
